@@ -151,12 +151,15 @@ fn seq_case(case: u64, rng: &mut Rng, st: &mut Stats, n_ops: usize) {
 enum COp {
     Add(FDoc),
     Update(u64, Patch),
+    /// removal of the document another writer is moving onto the contested value
+    Remove(u64),
 }
 
 #[derive(Debug)]
 enum CRes {
     Added(u64),
     Updated,
+    Removed(bool),
     Err(String),
 }
 
@@ -166,6 +169,8 @@ struct ConcCase {
     ops: Vec<COp>,
     what: &'static str,
     post_reads: bool,
+    /// release family: document 1 is updated onto the contested value while it is removed
+    release: bool,
 }
 
 fn gen_conc(rng: &mut Rng, three: bool) -> ConcCase {
@@ -221,7 +226,33 @@ fn gen_conc(rng: &mut Rng, three: bool) -> ConcCase {
         }
     }
     let post_reads = rng.bool();
-    ConcCase { cfg, initial, ops, what, post_reads }
+    // Release family (one case in three): writer 0 moves document 1 onto the contested value,
+    // writer 1 removes document 1 (its read of the document may be overtaken by the update),
+    // a third writer claims the value with a fresh document. Whatever the order, the removed
+    // document owns nothing afterwards ("available again as soon as the holder is removed").
+    let release = rng.chance(1, 3);
+    if release {
+        let mut p = Patch::new();
+        match kind {
+            0 => {
+                p.insert("uname".into(), Fv::Text("contested".into()));
+            }
+            1 => {
+                p.insert("codes".into(), text_array(&["ci0".to_string(), "contested".to_string()]));
+            }
+            _ => {
+                p.insert("grp".into(), Fv::Text("contested".into()));
+                p.insert("slot".into(), Fv::U64(7));
+            }
+        }
+        p.insert("age".into(), Fv::U64(41));
+        let third = ops.iter().find(|o| matches!(o, COp::Add(_))).cloned();
+        ops = vec![COp::Update(1, p), COp::Remove(1)];
+        if let (true, Some(a)) = (three, third) {
+            ops.push(a);
+        }
+    }
+    ConcCase { cfg, initial, ops, what, post_reads, release }
 }
 
 async fn run_schedule(cc: &ConcCase, chooser: &mut dyn Chooser, st: &mut Stats) -> Option<Vec<usize>> {
@@ -260,6 +291,10 @@ async fn run_schedule(cc: &ConcCase, chooser: &mut dyn Chooser, st: &mut Stats) 
                     Ok(_) => CRes::Updated,
                     Err(e) => CRes::Err(format!("{e:?}")),
                 },
+                COp::Remove(id) => match coll.remove(id).await {
+                    Ok(r) => CRes::Removed(r.is_some()),
+                    Err(e) => CRes::Err(format!("{e:?}")),
+                },
             }
         });
     }
@@ -285,8 +320,18 @@ async fn run_schedule(cc: &ConcCase, chooser: &mut dyn Chooser, st: &mut Stats) 
     let mut model: Model = d.model.clone();
     let mut winners = 0;
     let mut conflicts = 0;
+    let mut removed: Vec<u64> = vec![];
     for (i, op) in cc.ops.iter().enumerate() {
         match (op, ex.result(i).unwrap()) {
+            (COp::Remove(id), CRes::Removed(true)) => removed.push(*id),
+            (COp::Remove(_), CRes::Removed(false)) => {
+                st.violation("C04/conc/release/remove_of_a_live_document_found_nothing", json!({"schedule": trace, "ops": describe(&ex)}));
+                return None;
+            }
+            // the update lost the document to the removal: a valid order (remove, update)
+            (COp::Update(id, _), CRes::Err(e)) if cc.release && *id == 1 && (e.contains("NotFound") || e.contains("not found")) => {
+                st.count("release_update_after_remove");
+            }
             (COp::Add(doc), CRes::Added(id)) => {
                 winners += 1;
                 let mut n = doc.clone();
@@ -311,6 +356,14 @@ async fn run_schedule(cc: &ConcCase, chooser: &mut dyn Chooser, st: &mut Stats) 
             }
             _ => {}
         }
+    }
+    for id in &removed {
+        model.docs.remove(id);
+    }
+    if cc.release {
+        st.count("release_races_run");
+        // update and a fresh claim may both succeed here (update, remove, add is a valid order)
+        winners = winners.min(1);
     }
     st.count(&format!("conc_winners:{winners}"));
     if winners > 1 {
@@ -339,7 +392,7 @@ async fn run_schedule(cc: &ConcCase, chooser: &mut dyn Chooser, st: &mut Stats) 
             model.docs.remove(&o);
         }
     }
-    let mut claim = match &cc.ops[0] { COp::Add(d) => d.clone(), COp::Update(..) => { let mut x = cc.initial[0].clone(); x.uname = "contested".into(); x.codes = vec!["contested".into()]; x.grp = "contested".into(); x.slot = 7; x } };
+    let mut claim = match &cc.ops[0] { COp::Add(d) => d.clone(), COp::Update(..) | COp::Remove(..) => { let mut x = cc.initial[0].clone(); x.uname = "contested".into(); x.codes = vec!["contested".into()]; x.grp = "contested".into(); x.slot = 7; x } };
     claim.uname = if cc.what == "uname" { "contested".into() } else { "claimer".into() };
     if cc.what == "codes" { claim.codes = vec!["contested".into()]; } else { claim.codes = vec!["claimer-code".into()]; }
     if cc.what == "grp-slot" { claim.grp = "contested".into(); claim.slot = 7; } else { claim.grp = "claimer".into(); }
@@ -364,6 +417,7 @@ fn brief(op: &COp) -> String {
     match op {
         COp::Add(d) => format!("add(uname={},codes={:?},grp={},slot={})", d.uname, d.codes, d.grp, d.slot),
         COp::Update(id, p) => format!("update({id},{:?})", p.keys().collect::<Vec<_>>()),
+        COp::Remove(id) => format!("remove({id})"),
     }
 }
 
@@ -545,6 +599,7 @@ fn main() {
     run.floor("schedules_run", 500);
     run.floor("concurrent_conflicts_with_exactly_one_winner", 200);
     run.floor("contested_value_claimed_after_release", 200);
+    run.floor("release_races_run", 200);
     run.floor("crash_points_l1", 500);
     run.finish();
 }
